@@ -1,6 +1,10 @@
 package main
 
 import (
+	"fmt"
+	"sort"
+	"strings"
+
 	"golang.org/x/tools/go/ssa"
 )
 
@@ -27,6 +31,46 @@ func checkC20(c *Ctx) {
 		"C20.agree: Policy.Satisfaction and Attributes.CouldDecrypt are decided by the same satisfaction routine; ExtractFromCiphertext and CouldDecrypt fail when the header does not parse",
 		"C20.parse: policy parsing reports lexer/parser errors instead of producing a policy")
 	c.NotDec = append(c.NotDec, "the iff between decryption and policy satisfaction (pairing algebra)", "De Morgan rewriting of nested negation", "marshal/print round trips (length handling is covered by C10)")
+
+	// De Morgan: under a negation `and` becomes an or-gate and `or` an and-gate; the two gate builders decide
+	// "am I under a negation" by the same test of the parser state (sibling agreement)
+	{
+		conds := func(f *ssa.Function) []string {
+			set := map[string]bool{}
+			if f == nil {
+				return nil
+			}
+			for _, b := range f.Blocks {
+				ifi, ok := b.Instrs[len(b.Instrs)-1].(*ssa.If)
+				if !ok {
+					continue
+				}
+				d := descVal(ifi.Cond)
+				if strings.Contains(d, "param#0.") && !strings.Contains(d, "tokens") && !strings.Contains(d, "call:") {
+					set[d] = true
+				}
+			}
+			var out []string
+			for k := range set {
+				out = append(out, k)
+			}
+			sort.Strings(out)
+			return out
+		}
+		fa, fo := p.Func("abe/cpabe/tkn20/internal/dsl", "Parser", "and"), p.Func("abe/cpabe/tkn20/internal/dsl", "Parser", "or")
+		what := "(*dsl.Parser).and / or: both swap their gate under the same test of the negation state"
+		ca, co := conds(fa), conds(fo)
+		switch {
+		case fa == nil || fo == nil:
+			c.undecided("C20.parse", what, "anchor functions do not resolve", "")
+		case len(ca) == 0 || len(co) == 0:
+			c.bad("C20.parse", what, fmt.Sprintf("a gate builder does not consult the parser state at all (and: %v, or: %v)", ca, co), p.fnPos(fa))
+		case strings.Join(ca, " ; ") != strings.Join(co, " ; "):
+			c.bad("C20.parse", what, fmt.Sprintf("and() branches on %v, or() on %v: one of them mis-handles some nesting of negations", ca, co), p.fnPos(fa))
+		default:
+			c.ok("C20.parse", what, fmt.Sprintf("both branch on %v", ca), p.fnPos(fa))
+		}
+	}
 
 	tk := "abe/cpabe/tkn20/internal/tkn"
 	dec := p.Func(tk, "", "DecryptCCA")
